@@ -288,6 +288,7 @@ class EdSim(core.Engine):
                     files[os.path.normpath(p)] = fh.read()
         return files, dirs
 
+    @core.stuck_guard
     def _execute(self, trace: dict, prop: str) -> core.RunResult:
         stats: collections.Counter = collections.Counter()
         log: list = [{'knobs': trace['knobs'], 'entry': trace['entry'], 'world': {k: core.sha(v) for k, v in sorted(trace['world'].items())}}]
